@@ -33,7 +33,7 @@ VARIABLES bal,        \* [Accts -> Nat]
           nonce,      \* [Users -> Nat]
           staked,     \* [Users -> Nat]
           total,      \* recorded total stake
-          owner,      \* [names -> Users \cup {None}]  (one name "n1")
+          owner,      \* [n1 |-> owner of the one name "n1", admin |-> owner of the name contract itself (v1setOwner)], Users \cup {None}
           deployed,   \* is the contract deployed
           store,      \* contract storage: value of the single key "k" (0 = absent)
           executed,   \* set of transactions executed on this chain (success or error)
@@ -72,7 +72,8 @@ CanApply(t, fee) ==
   /\ CASE t.kind = "stake"   -> staked[t.from] = 0 /\ t.amt >= MinStake
        [] t.kind = "unstake" -> FALSE                      \* inside the staking lock period (heights are small)
        [] t.kind = "vote"    -> staked[t.from] > 0            \* (re-votes inside the voting lock period are rejected by the code)
-       [] t.kind = "name"    -> owner = None
+       [] t.kind = "name"    -> owner.n1 = None
+       [] t.kind = "setowner" -> owner.admin = None            \* one shot: anybody may appoint the owner of the name contract
        [] t.kind = "deploy"  -> ~deployed
        [] t.kind = "call"    -> deployed
        [] t.kind = "fdcall"  -> deployed
@@ -86,6 +87,8 @@ Classes(t, fee) ==
 
 \* effects of a successful transaction on balances (fee excluded)
 Move(b, from, to, a) == [b EXCEPT ![from] = @ - a, ![to] = @ + a]
+
+NameRcpt == IF owner.admin = None THEN Name ELSE owner.admin
 
 ApplySuccess(t, fee) ==
   /\ nonce' = [nonce EXCEPT ![t.from] = t.nonce]
@@ -104,9 +107,13 @@ ApplySuccess(t, fee) ==
        [] t.kind = "vote" ->                                 \* tallies only (Governance.tla); no coin moves
             /\ bal' = [bal EXCEPT ![t.from] = @ - fee]
             /\ UNCHANGED <<staked, total, owner, deployed, store>>
-       [] t.kind = "name" ->
-            /\ bal' = [Move(bal, t.from, Name, NamePrice) EXCEPT ![t.from] = @ - fee]
-            /\ owner' = t.from
+       [] t.kind = "name" ->                                 \* the price goes to the owner of the name contract once there is one
+            /\ bal' = [Move(bal, t.from, NameRcpt, NamePrice) EXCEPT ![t.from] = @ - fee]
+            /\ owner' = [owner EXCEPT !.n1 = t.from]
+            /\ UNCHANGED <<staked, total, deployed, store>>
+       [] t.kind = "setowner" ->                             \* everything the name contract collected so far moves to the new owner
+            /\ bal' = [Move(bal, Name, t.to, bal[Name]) EXCEPT ![t.from] = @ - fee]
+            /\ owner' = [owner EXCEPT !.admin = t.to]
             /\ UNCHANGED <<staked, total, deployed, store>>
        [] t.kind = "deploy" ->
             /\ bal' = [bal EXCEPT ![t.from] = @ - fee]
@@ -133,7 +140,7 @@ ApplyError(t, fee) ==
 Init ==
   /\ bal = [a \in Accts |-> IF a \in Users THEN InitBal ELSE 0]
   /\ nonce = [u \in Users |-> 0] /\ staked = [u \in Users |-> 0] /\ total = 0
-  /\ owner = None /\ deployed = FALSE /\ store = 0 /\ executed = {}
+  /\ owner = [n1 |-> None, admin |-> None] /\ deployed = FALSE /\ store = 0 /\ executed = {}
   /\ bpReward = 0 /\ burnt = 0 /\ blockNo = 0 /\ inBlock = FALSE /\ txCount = 0 /\ rcpts = <<>>
   /\ lastAct = [name |-> "Init"]
 
